@@ -10,9 +10,19 @@ pub struct Case {
     pub base: SessionCase,
     pub wfault: Option<WFault>,
     pub tampers: Vec<Tamper>,
+    /// adversarial prover: the reference prover run with these nonce roles
+    /// forced to zero (bit i of the mask, see `adv_nonces`) and all other
+    /// nonces drawn from this seed
+    #[serde(default)]
+    pub adversary: Option<(u32, u64)>,
 }
 
 pub fn run_case<G: AffineRepr>(run: u64, case: &Case, st: &mut Stats) {
+    use ark_std::{UniformRand, Zero};
+    if let Some((mask, seed)) = case.adversary {
+        run_adversary::<G>(run, case, mask, seed, st);
+        return;
+    }
     let (n1, _, _, _) = shape_of(&case.base.st);
     let mut sc = case.base.clone();
     if let Some(f) = &case.wfault {
@@ -32,6 +42,26 @@ pub fn run_case<G: AffineRepr>(run: u64, case: &Case, st: &mut Stats) {
         }
     };
     st.steps += pr.steps + 1;
+    // adversarial prover with knowledge of every weight derivable too early
+    if case.wfault.is_none() {
+        for (pos, fb) in adaptive_forgeries::<G>(&sc.st, &pr.commitments, &pr.bytes).into_iter().take(6) {
+            st.eval();
+            st.fault("F4-adaptive-weighted-blinding-shift");
+            let real = deliver::<G>(&sc.st, &pr.commitments, &fb, &case.base.cap_v);
+            if let Some(rf) = ref_verdict::<G>(&sc.st, &pr.commitments, &fb) {
+                if !real.panicked && real.accepted != rf.accept() {
+                    st.violate(Violation {
+                        run,
+                        oracle: "verdict-equals-relations".into(),
+                        signature: format!("verdict-mismatch:adaptive-forgery:real={}", real.accepted),
+                        detail: format!("adaptive forgery (weight derivable after schedule position {}): real {} vs reference {}", pos, real.text, rf.why()),
+                        case: json!({"base": case.base, "wfault": case.wfault, "tampers": [], "adaptive": true}),
+                    });
+                    break;
+                }
+            }
+        }
+    }
     for t in &case.tampers {
         let Some(bytes) = tamper::apply_bytes::<G>(&pr.bytes, t) else {
             continue;
@@ -106,6 +136,30 @@ pub fn run_case<G: AffineRepr>(run: u64, case: &Case, st: &mut Stats) {
 pub fn case_for(seed: u64, tier: Tier, run: u64) -> Case {
     let curve = CURVES[(run % 3) as usize];
     let mut rng = sub_rng(seed, "C03", run, "case");
+    if run % 4 == 1 {
+        // adversarial prover node
+        use rand_core::RngCore;
+        let stmt = if chance(&mut rng, 3, 4) {
+            adversary_statement(curve, rng.next_u64())
+        } else {
+            let mut kn = gen::Knobs::quick();
+            kn.max_gates = 5;
+            gen_session_case(&mut rng, curve, &kn).st
+        };
+        let (_, _, _, padded) = shape_of(&stmt);
+        let mask = match below(&mut rng, 4) {
+            0 => 0,
+            1 => 1u32 << below(&mut rng, 11),
+            2 => (1u32 << below(&mut rng, 11)) | (1u32 << below(&mut rng, 11)),
+            _ => (rng.next_u32()) & 0x7ff,
+        };
+        return Case {
+            base: SessionCase { st: stmt, cap_p: vec![padded], cap_v: vec![padded], ext_seed: 0 },
+            wfault: None,
+            tampers: vec![],
+            adversary: Some((mask, rng.next_u64())),
+        };
+    }
     let mut kn = tier.pick(gen::Knobs::quick(), gen::Knobs::thorough());
     kn.max_gates = tier.pick(9, 33);
     let base = gen_session_case(&mut rng, curve, &kn);
@@ -126,7 +180,89 @@ pub fn case_for(seed: u64, tier: Tier, run: u64) -> Case {
         base,
         wfault,
         tampers,
+        adversary: None,
     }
+}
+
+/// Statements on which individual commitments CAN legitimately be the
+/// identity when the corresponding nonce is zero.
+fn adversary_statement(curve: Curve, which: u64) -> Statement {
+    let lit = |u: u64| Val::Lit(S::U(u));
+    let ops = match which % 5 {
+        // gate-free: every t_i = 0, A_I1 = beta*B~ ...
+        0 => vec![Op::Commit { v: S::U(4), r: S::U(9) }, Op::Constrain(Expr::sub(Expr::V(0), Expr::K(S::U(4))))],
+        // one half-open gate: a_R = a_O = 0
+        1 => vec![Op::Alloc(Some(lit(5)))],
+        // all wires zero
+        2 => vec![Op::AllocMul(Some((lit(0), lit(0)))), Op::AllocMul(Some((lit(0), lit(0))))],
+        // second phase with all-zero gates
+        3 => vec![
+            Op::AllocMul(Some((lit(2), lit(3)))),
+            Op::Randomized(vec![Op::Challenge { label: 5 }, Op::Mul(Expr::K(S::U(0)), Expr::K(S::U(0))), Op::Mul(Expr::K(S::U(0)), Expr::K(S::U(0)))]),
+        ],
+        // second phase only, all-zero gates
+        _ => vec![Op::Randomized(vec![Op::Challenge { label: 5 }, Op::AllocMul(Some((lit(0), lit(0))))])],
+    };
+    Statement { curve, tlabel: 0, pre: vec![], bases: Bases::Default, ops }
+}
+
+/// bits: 0 beta_i1, 1 beta_o1, 2 sigma1+s1, 3 beta_i2, 4 beta_o2, 5 sigma2+s2, 6..10 tau_1..tau_6
+fn adv_nonces<F: PrimeField>(mask: u32, seed: u64, n1: usize, n2: usize) -> crate::refprover::Nonces<F> {
+    let mut rng = rng_from_u64(seed, "adversary-nonces");
+    let mut d = |bit: u32| -> F {
+        let x = F::rand(&mut rng);
+        if mask & (1 << bit) != 0 { F::zero() } else { x }
+    };
+    let beta_i1 = d(0);
+    let beta_o1 = d(1);
+    let sigma1 = d(2);
+    let s_l1 = (0..n1).map(|_| d(2)).collect();
+    let s_r1 = (0..n1).map(|_| d(2)).collect();
+    let beta_i2 = d(3);
+    let beta_o2 = d(4);
+    let sigma2 = d(5);
+    let s_l2 = (0..n2).map(|_| d(5)).collect();
+    let s_r2 = (0..n2).map(|_| d(5)).collect();
+    let tau = [d(6), d(7), d(8), d(9), d(10)];
+    crate::refprover::Nonces { beta_i1, beta_o1, sigma1, s_l1, s_r1, beta_i2, beta_o2, sigma2, s_l2, s_r2, tau }
+}
+
+fn run_adversary<G: AffineRepr>(run: u64, case: &Case, mask: u32, seed: u64, st: &mut Stats) {
+    type F<G> = <G as AffineRepr>::ScalarField;
+    st.eval();
+    st.fault("adversarial-prover-chosen-nonces");
+    let stmt = &case.base.st;
+    let rp = crate::refprover::ref_prove::<G>(stmt, &|n1, n2| Some(adv_nonces::<F<G>>(mask, seed, n1, if n2 == usize::MAX { 0 } else { n2 })));
+    let Some(rp) = rp else {
+        st.probe("adversary-could-not-prove(skipped)");
+        return;
+    };
+    let bytes = rp.fields.encode();
+    let real = deliver::<G>(stmt, &rp.commitments, &bytes, &case.base.cap_v);
+    if !real.decoded || real.panicked {
+        st.probe(if real.panicked { "real-panicked(C08)" } else { "adversarial-proof-did-not-decode" });
+        return;
+    }
+    let rf = crate::refsession::ref_verify::<G>(stmt, &rp.commitments, &rp.fields);
+    let n_ident = rp.fields.pts.iter().filter(|p| p.is_zero()).count();
+    if real.accepted != rf.accept() {
+        st.violate(Violation {
+            run,
+            oracle: "verdict-equals-relations".into(),
+            signature: format!("verdict-mismatch:adversarial-prover:real={}:ref={}", real.accepted, rf.accept()),
+            detail: format!("adversarial prover (nonce mask {:#b}, {} identity points among the 11 commitments): real verifier {} but relations say {} [{}]", mask, n_ident, real.text, if rf.accept() { "accept" } else { "reject" }, rf.why()),
+            case: to_value(case),
+        });
+        return;
+    }
+    if std::env::var("BPSIM_DEBUG").is_ok() {
+        eprintln!("adversary mask={:#b} shape={} real={} ref={}", mask, stmt.shape(), real.text, rf.why());
+    }
+    st.probe(&format!("adversary:agree:{}:a{}", if rf.accept() { "accept" } else { "reject" }, rf.rel_a as u8));
+    if n_ident > 0 {
+        st.probe("adversary:identity-commitment-produced");
+    }
+    st.distinct(&format!("adv|{}|{}|{}|{}", stmt.curve.name(), stmt.shape(), mask, rf.why()));
 }
 
 pub fn run(ctx: &Ctx) -> i32 {
@@ -155,4 +291,23 @@ pub fn replay(case: &Value) -> Vec<Violation> {
     let mut st = Stats::default();
     with_curve!(case.base.st.curve, G, run_case::<G>(0, &case, &mut st));
     st.violations
+}
+
+pub fn shrink(case: &Value) -> Vec<Value> {
+    let Ok(c) = serde_json::from_value::<Case>(case.clone()) else { return vec![] };
+    let mut out = vec![];
+    if c.wfault.is_some() {
+        out.push(to_value(&Case { base: c.base.clone(), wfault: None, tampers: c.tampers.clone(), adversary: c.adversary }));
+    }
+    for (b, removed) in shrink_session(&c.base) {
+        let wf = match &c.wfault {
+            None => None,
+            Some(f) => match shrink_wfault(f, removed) {
+                Some(x) => Some(x),
+                None => continue,
+            },
+        };
+        out.push(to_value(&Case { base: b, wfault: wf, tampers: c.tampers.clone(), adversary: c.adversary }));
+    }
+    out
 }
